@@ -55,6 +55,19 @@ MUTANTS: List[Dict[str, Any]] = [
     M("c11-append-on-negative", ["C11"], E("acl.py", "Acl.shading", "                if ace_bottom.shadow_of(other=ace_top, skip=skip):", "                if not ace_bottom.shadow_of(other=ace_top, skip=skip):"), "Acl.shading"),
     M("c11-key-is-bottom", ["C11"], E("acl.py", "Acl.shading", "shading_d.setdefault(ace_top.line, []).append(ace_bottom.line)", "shading_d.setdefault(ace_bottom.line, []).append(ace_top.line)"), "under its top"),
     M("c11-ncw-reads-only-self", ["C11"], E("ace.py", "Ace._shadow_of__srcaddr", "if not (self.srcaddr.ipnet and other.srcaddr.ipnet):", "if not self.srcaddr.ipnet:"), "nc_wildcard"),
+    # ------------------------------------------------------------------ C05 / C17
+    M("c05-lru-cache (revert F1)", ["C05", "C17"], [E("wildcard.py", "<module>", "from ipaddress import NetmaskValueError", "from functools import lru_cache\nfrom ipaddress import NetmaskValueError"), E("wildcard.py", "Wildcard.ipnets", "    def ipnets(self) -> LIpNet:", "    @lru_cache\n    def ipnets(self) -> LIpNet:"), E("wildcard.py", "Wildcard.ipnets", "        if self._ipnets:\n            return self._ipnets\n", ""), E("wildcard.py", "Wildcard.ipnets", "        self._ipnets = ipnets\n", "")], "lru_cache"),
+    M("c05-memo-not-reset", ["C05", "C17"], E("wildcard.py", "Wildcard.line.setter", "        self._prefixlen = prefixlen\n        self._ipnets = []\n", "        self._prefixlen = prefixlen\n"), "memo"),
+    M("c05-store-before-check (revert F7)", ["C05"], E("wildcard.py", "Wildcard.line.setter", "        ipnet = self._create_ipnet(prefix_o, wildmask_o)\n        ncwb, prefixlen = self._create_ncwb(wildmask_o)\n        self._prefix = prefix_o\n        self._wildmask = wildmask_o\n", "        ipnet = self._create_ipnet(prefix_o, wildmask_o)\n        self._prefix = prefix_o\n        self._wildmask = wildmask_o\n        ncwb, prefixlen = self._create_ncwb(wildmask_o)\n"), "hybrid"),
+    M("c05-limit-ge", ["C05"], E("wildcard.py", "Wildcard._ncw_bits", "if count > self.max_ncwb:", "if count >= self.max_ncwb:"), "count>=limit"),
+    M("c05-limit-truncates", ["C05"], E("wildcard.py", "Wildcard._ncw_bits", "            raise NetmaskValueError(msg)\n", "            return ncwb[: self.max_ncwb]\n"), "_ncw_bits"),
+    M("c05-limit-on-other-list", ["C05"], E("wildcard.py", "Wildcard._ncw_bits", "count = len(ncwb)", "count = len(wb_idxs) - 32"), "_ncw_bits"),
+    M("c05-max-31", ["C05"], E("wildcard.py", "<module>", "MAX_NCWB = 30", "MAX_NCWB = 31"), "0..30"),
+    M("c05-max-no-lower-bound", ["C05"], E("wildcard.py", "init_max_ncwb", "if not 0 <= max_ncwb <= MAX_NCWB:", "if not max_ncwb <= MAX_NCWB:"), "0..30"),
+    M("c05-reraise-removed", ["C05", "C12"], E("ace_group.py", "AceGroup._line_to_oace", "            except NetmaskValueError:\n                raise\n", ""), "_line_to_oace"),
+    M("c05-ipnet-try-encloses-check", ["C05"], E("wildcard.py", "Wildcard.line.setter", "        ncwb, prefixlen = self._create_ncwb(wildmask_o)\n", "        try:\n            ncwb, prefixlen = self._create_ncwb(wildmask_o)\n        except ValueError:\n            ncwb, prefixlen = [], 32\n"), "re-raising"),
+    M("c05-setter-partial-path", ["C05"], E("wildcard.py", "Wildcard.line.setter", "        self._ncwb = ncwb\n", "        if ipnet is not None:\n            return\n        self._ncwb = ncwb\n"), "previous line"),
+    M("c05-max_ncwb-second-writer", ["C05"], E("wildcard.py", "Wildcard.__init__", "        self.max_ncwb: int = init_max_ncwb(**kwargs)\n", "        self.max_ncwb: int = init_max_ncwb(**kwargs)\n        self._max_ncwb = kwargs.get(\"max_ncwb\") or 16\n"), "one writer"),
     # ------------------------------------------------------------------ C08
     M("c08-lt-interior (revert F2)", ["C08"], E("port.py", "Port._ports_to_items", "return [ports[-1] + 1] if ports else [1]", "return [ports[1] + 1] if ports else [1]"), "interior"),
     M("c08-lt-low-end", ["C08"], E("port.py", "Port._ports_to_items", "return [ports[-1] + 1] if ports else [1]", "return [ports[0] + 1] if ports else [1]"), "_ports_to_items"),
@@ -91,6 +104,9 @@ MUTANTS: List[Dict[str, Any]] = [
 
 
 TWINS: List[Dict[str, Any]] = [
+    {"id": "twin-wildcard-limit-flipped", "edits": [E("wildcard.py", "Wildcard._ncw_bits", "if count > self.max_ncwb:", "if self.max_ncwb < count:")]},
+    {"id": "twin-wildcard-no-memo", "edits": [E("wildcard.py", "Wildcard.ipnets", "        if self._ipnets:\n            return self._ipnets\n", ""), E("wildcard.py", "Wildcard.ipnets", "        self._ipnets = ipnets\n", "")]},
+    {"id": "twin-max-ncwb-two-ifs", "edits": [E("wildcard.py", "init_max_ncwb", "    if not 0 <= max_ncwb <= MAX_NCWB:\n        raise ValueError(f\"invalid {max_ncwb=}, allowed in range 0..{MAX_NCWB}\")\n", "    if max_ncwb < 0:\n        raise ValueError(f\"invalid {max_ncwb=}, allowed in range 0..{MAX_NCWB}\")\n    if max_ncwb > MAX_NCWB:\n        raise ValueError(f\"invalid {max_ncwb=}, allowed in range 0..{MAX_NCWB}\")\n")]},
     {"id": "twin-port-inverse-minmax", "edits": [E("port.py", "Port._ports_to_items", "return [ports[0] - 1] if ports else [65535]", "return [min(ports) - 1] if ports else [65535]"), E("port.py", "Port._ports_to_items", "return [ports[-1] + 1] if ports else [1]", "return [max(ports) + 1] if ports else [1]")]},
     {"id": "twin-gt-ge-plus-one", "edits": [E("port.py", "Port._items_to_ports", "items = [i for i in all_ports if i > items[0]]", "items = [i for i in all_ports if i >= items[0] + 1]")]},
     {"id": "twin-range-arity-form", "edits": [E("port.py", "Port._line__items_to_ints", 'if operator == "range" and len(ports) != 2:', 'if operator == "range" and not len(ports) == 2:')]},
